@@ -145,10 +145,160 @@ Proof.
 Qed.
 
 (* ------------------------------------------------------------------------------------------ *)
+(* right combs: PAIR n / UNPAIR n / GET k / UPDATE k                                          *)
+(* ------------------------------------------------------------------------------------------ *)
+
+Lemma nat_ind2 (P : nat -> Prop) : P 0 -> P 1 -> (forall n, P n -> P (S (S n))) -> forall n, P n.
+Proof.
+  intros H0 H1 HS. assert (H : forall n, P n /\ P (S n)).
+  { induction n as [|n [IH1 IH2]]; [split; assumption | split; [assumption | apply HS; assumption]]. }
+  intros n. apply H.
+Qed.
+
+Lemma comb_agree args : forall ts, Forall2 typed args ts -> args <> [] ->
+  exists v t, py_from_comb args = Some v /\ ty_comb ts = Some t /\ typed v t /\ v_comb (map erase args) = Some (erase v).
+Proof.
+  induction args as [|x r IH]; intros ts H Hne; [congruence|].
+  inversion H as [|? t ? ts' Hx Hr]; subst. destruct r as [|y r].
+  - inversion Hr; subst. exists x, t. simpl. auto.
+  - destruct (IH ts' Hr) as (v & t' & E1 & E2 & T & E3); [discriminate|].
+    inversion Hr as [|? ty ? ts'' Hy Hr']; subst.
+    exists (PPair x v), (TPair t t').
+    change (py_from_comb (x :: y :: r)) with (option_map (PPair x) (py_from_comb (y :: r))).
+    change (ty_comb (t :: ty :: ts'')) with (option_map (TPair t) (ty_comb (ty :: ts''))).
+    change (v_comb (map erase (x :: y :: r))) with (option_map (VPair (erase x)) (v_comb (map erase (y :: r)))).
+    rewrite E1, E2, E3. simpl. repeat split; auto. unfold typed in *. simpl. rewrite Hx, T. reflexivity.
+Qed.
+
+Lemma uncomb_agree m : forall x y a b ts, ty_uncomb (S (S m)) (TPair a b) = Some ts -> typed (PPair x y) (TPair a b) ->
+  Forall2 typed (py_unpairn m (PPair x y)) ts /\
+  v_uncomb (S (S m)) (erase (PPair x y)) = Some (map erase (py_unpairn m (PPair x y))).
+Proof.
+  induction m as [|m IH]; intros x y a b ts Hty Hv; apply typed_pair_inv in Hv as (x' & y' & E & Hx & Hy);
+    injection E as <- <-.
+  - simpl in Hty. injection Hty as <-. simpl. split; [repeat constructor; assumption | reflexivity].
+  - change (ty_uncomb (S (S (S m))) (TPair a b)) with (option_map (cons a) (ty_uncomb (S (S m)) b)) in Hty.
+    destruct (ty_uncomb (S (S m)) b) as [ts'|] eqn:E; [|discriminate]. injection Hty as <-.
+    destruct b; try discriminate E. apply typed_pair_inv in Hy as Hy'. destruct Hy' as (y1 & y2 & -> & _ & _).
+    destruct (IH y1 y2 _ _ _ E Hy) as [T R].
+    change (py_unpairn (S m) (PPair x (PPair y1 y2))) with (x :: py_unpairn m (PPair y1 y2)).
+    split; [constructor; assumption|].
+    change (v_uncomb (S (S (S m))) (erase (PPair x (PPair y1 y2))))
+      with (option_map (cons (erase x)) (v_uncomb (S (S m)) (erase (PPair y1 y2)))).
+    rewrite R. reflexivity.
+Qed.
+
+Lemma get_n_agree k : forall t v t', ty_get_n k t = Some t' -> typed v t ->
+  exists w, py_access_comb k v = Some w /\ typed w t' /\ v_get_n k (erase v) = Some (erase w).
+Proof.
+  induction k as [| |k IH] using nat_ind2; intros t v t' Hty Hv.
+  - injection Hty as <-. exists v. auto.
+  - simpl in Hty. destruct t; try discriminate. injection Hty as <-.
+    apply typed_pair_inv in Hv as (x & y & -> & Hx & Hy). exists x. auto.
+  - simpl in Hty. destruct t; try discriminate. apply typed_pair_inv in Hv as (x & y & -> & Hx & Hy).
+    destruct (IH _ _ _ Hty Hy) as (w & E & T & R). exists w. auto.
+Qed.
+
+(* the structural update, to which pair.update_comb (flatten, patch, rebuild) is equal *)
+Fixpoint p_update_n (k : nat) (x v : pval) : option pval :=
+  match k with
+  | 0 => Some x
+  | 1 => match v with PPair _ b => Some (PPair x b) | _ => None end
+  | S (S k') => match v with PPair a b => option_map (PPair a) (p_update_n k' x b) | _ => None end
+  end.
+
+Lemma update_n_agree k : forall tx t x v t', ty_update_n k tx t = Some t' -> typed x tx -> typed v t ->
+  exists w, p_update_n k x v = Some w /\ typed w t' /\ v_update_n k (erase x) (erase v) = Some (erase w).
+Proof.
+  induction k as [| |k IH] using nat_ind2; intros tx t x v t' Hty Hx Hv.
+  - injection Hty as <-. exists x. auto.
+  - simpl in Hty. destruct t; try discriminate. injection Hty as <-.
+    apply typed_pair_inv in Hv as (a & b & -> & Ha & Hb). exists (PPair x b). simpl. repeat split; auto.
+    unfold typed in *. simpl. rewrite Hx, Hb. reflexivity.
+  - simpl in Hty. destruct t; try discriminate. apply typed_pair_inv in Hv as (a & b & -> & Ha & Hb).
+    destruct (ty_update_n k tx t2) as [t''|] eqn:E; [|discriminate]. injection Hty as <-.
+    destruct (IH _ _ _ _ _ E Hx Hb) as (w & E1 & T & R). exists (PPair a w). simpl. rewrite E1, R. simpl. repeat split; auto.
+    unfold typed in *. simpl. rewrite Ha, T. reflexivity.
+Qed.
+
+Lemma py_spine_nonempty v : py_spine v <> [].
+Proof. destruct v; simpl; discriminate. Qed.
+
+Lemma py_from_comb_cons a l : l <> [] -> py_from_comb (a :: l) = option_map (PPair a) (py_from_comb l).
+Proof. destruct l; [congruence | reflexivity]. Qed.
+
+Lemma py_from_comb_spine v : py_from_comb (py_spine v) = Some v.
+Proof.
+  induction v; try reflexivity. simpl py_spine. rewrite py_from_comb_cons by apply py_spine_nonempty.
+  rewrite IHv2. reflexivity.
+Qed.
+
+Lemma replace_nth_nonempty {A} i (x : A) l : l <> [] -> replace_nth i x l <> [].
+Proof. destruct l; [congruence|]. destruct i; simpl; discriminate. Qed.
+
+Lemma update_odd i : forall x v w, p_update_n (S (2 * i)) x v = Some w ->
+  py_from_comb (replace_nth i x (py_spine v)) = Some w.
+Proof.
+  induction i as [|i IH]; intros x v w H.
+  - simpl in H. destruct v; try discriminate. injection H as <-. cbn [py_spine replace_nth].
+    rewrite py_from_comb_cons by apply py_spine_nonempty. rewrite py_from_comb_spine. reflexivity.
+  - replace (S (2 * S i)) with (S (S (S (2 * i)))) in H by lia.
+    change (p_update_n (S (S (S (2 * i)))) x v)
+      with (match v with PPair a b => option_map (PPair a) (p_update_n (S (2 * i)) x b) | _ => None end) in H.
+    destruct v; try discriminate. destruct (p_update_n (S (2 * i)) x v2) as [w'|] eqn:E; [|discriminate].
+    injection H as <-. cbn [py_spine replace_nth]. rewrite py_from_comb_cons by (apply replace_nth_nonempty, py_spine_nonempty).
+    rewrite (IH _ _ _ E). reflexivity.
+Qed.
+
+Lemma update_even i : forall x v w, p_update_n (2 * S i) x v = Some w ->
+  py_from_comb (firstn (S i) (py_spine v) ++ py_spine x) = Some w.
+Proof.
+  induction i as [|i IH]; intros x v w H.
+  - simpl in H. destruct v; try discriminate. injection H as <-. cbn [py_spine firstn app].
+    rewrite py_from_comb_cons by apply py_spine_nonempty. rewrite py_from_comb_spine. reflexivity.
+  - replace (2 * S (S i)) with (S (S (2 * S i))) in H by lia.
+    change (p_update_n (S (S (2 * S i))) x v)
+      with (match v with PPair a b => option_map (PPair a) (p_update_n (2 * S i) x b) | _ => None end) in H.
+    destruct v; try discriminate. destruct (p_update_n (2 * S i) x v2) as [w'|] eqn:E; [|discriminate].
+    injection H as <-. cbn [py_spine]. change (firstn (S (S i)) (v1 :: py_spine v2)) with (v1 :: firstn (S i) (py_spine v2)).
+    rewrite <- app_comm_cons. rewrite py_from_comb_cons.
+    + rewrite (IH _ _ _ E). reflexivity.
+    + destruct (py_spine v2) eqn:Q; [exfalso; eapply py_spine_nonempty; eassumption | simpl; discriminate].
+Qed.
+
+Lemma py_update_comb_structural k x v w : p_update_n k x v = Some w -> py_update_comb k x v = Some w.
+Proof.
+  intros H. unfold py_update_comb. destruct k as [|k]; [exact H|]. simpl Nat.eqb. cbv iota.
+  destruct (Nat.Even_or_Odd (S k)) as [[j Hj] | [j Hj]].
+  - destruct j as [|j]; [lia|]. rewrite Hj in *.
+    replace (Nat.odd (2 * S j)) with false by (symmetry; rewrite <- Nat.negb_even, Nat.even_mul; reflexivity).
+    rewrite Nat.div2_double. apply update_even. assumption.
+  - replace (S k) with (S (2 * j)) in * by lia.
+    replace (Nat.odd (S (2 * j))) with true by (symmetry; rewrite Nat.odd_succ, Nat.even_mul; reflexivity).
+    rewrite Nat.div2_succ_double. apply update_odd. assumption.
+Qed.
+
+(* ------------------------------------------------------------------------------------------ *)
 (* instructions without sub-programs: the pytezos step agrees with the reference rule          *)
 (* ------------------------------------------------------------------------------------------ *)
 
 Definition styped (vis : list pval) (s : sty) : Prop := Forall2 typed vis s.
+
+Lemma split_at_app {A} (a b : list A) n : length a = n -> skipn n (a ++ b) = b /\ firstn n (a ++ b) = a.
+Proof.
+  intros <-. split.
+  - rewrite skipn_app, skipn_all, Nat.sub_diag. reflexivity.
+  - rewrite firstn_app, firstn_all, Nat.sub_diag. simpl. apply app_nil_r.
+Qed.
+
+Lemma styped_split n vis s : styped vis s -> n <= length s ->
+  exists a b, vis = a ++ b /\ length a = n /\ styped a (firstn n s) /\ styped b (skipn n s).
+Proof.
+  intros H L. exists (firstn n vis), (skipn n vis). pose proof (Forall2_length' _ _ _ H) as E.
+  rewrite firstn_skipn, firstn_length, Nat.min_l by lia. repeat split; auto.
+  - apply Forall2_firstn. assumption.
+  - apply Forall2_skipn. assumption.
+Qed.
 
 Ltac tc_cases H :=
   repeat match type of H with
@@ -206,7 +356,14 @@ Lemma simple_agree i k fn s s1 vis :
     end.
 Proof.
   unfold styped. intros Hpy Htc Hs.
-  destruct i; simpl in Hpy; try discriminate Hpy; injection Hpy as <- <-; simpl in Htc.
+  destruct i; simpl in Hpy; try discriminate Hpy; injection Hpy as <- <-;
+    first [ match type of Htc with
+            | tc_simple (I_PAIRN _) _ = _ => cbn [tc_simple] in Htc
+            | tc_simple (I_UNPAIRN _) _ = _ => cbn [tc_simple] in Htc
+            | tc_simple (I_GETN _) _ = _ => cbn [tc_simple] in Htc
+            | tc_simple (I_UPDATEN _) _ = _ => cbn [tc_simple] in Htc
+            end
+          | simpl in Htc ].
   - (* SWAP *) tc_cases Htc. injection Htc as <-. inv_f2. give_args. simpl.
     eexists; split; [reflexivity | split; [reflexivity | repeat constructor; assumption]].
   - (* PUSH *) tc_cases Htc. injection Htc as <-. give_args. simpl.
@@ -219,6 +376,46 @@ Proof.
     eexists; split; [reflexivity | split; [reflexivity | repeat constructor; assumption]].
   - (* CDR *) tc_cases Htc. injection Htc as <-. inv_f2. inv_ty. give_args. simpl.
     eexists; split; [reflexivity | split; [reflexivity | repeat constructor; assumption]].
+  - (* PAIR n *)
+    destruct ((2 <=? n) && (n <=? length s)) eqn:En; [|discriminate]. apply andb_prop in En as [En2 Enl].
+    apply Nat.leb_le in En2. apply Nat.leb_le in Enl.
+    destruct (ty_comb (firstn n s)) as [t|] eqn:Ec; [|discriminate]. injection Htc as <-.
+    destruct (styped_split n vis s Hs Enl) as (a & b & -> & La & Ta & Tb).
+    exists a, b. split; [reflexivity | split; [assumption|]].
+    assert (Hne : a <> []) by (destruct a; simpl in La; [lia | discriminate]).
+    destruct (comb_agree a _ Ta Hne) as (v & t' & E1 & E2 & T & E3). rewrite Ec in E2. injection E2 as <-.
+    cbn [ref_simple]. rewrite map_length, app_length.
+    replace ((2 <=? n) && (n <=? length a + length b)) with true
+      by (symmetry; apply andb_true_intro; split; apply Nat.leb_le; lia).
+    rewrite map_app. destruct (split_at_app (map erase a) (map erase b) n) as [Esk Efi]; [rewrite map_length; assumption|].
+    rewrite Esk, Efi, E3. destruct n as [|[|m]]; [lia | lia |]. rewrite E1.
+    eexists; split; [reflexivity | split; [reflexivity | constructor; assumption]].
+  - (* UNPAIR n *)
+    destruct s as [|t r]; [discriminate|]. destruct (2 <=? n) eqn:En; [|discriminate]. apply Nat.leb_le in En.
+    destruct n as [|[|m]]; try lia. destruct (ty_uncomb (S (S m)) t) as [ts|] eqn:Eu; [|discriminate]. injection Htc as <-.
+    inversion Hs as [|v ? rest ? Hv Hr]; subst.
+    destruct t; try discriminate Eu. apply typed_pair_inv in Hv as Hv'. destruct Hv' as (x & y & -> & _ & _).
+    destruct (uncomb_agree m x y _ _ _ Eu Hv) as [T R].
+    exists [PPair x y], rest. split; [reflexivity | split; [reflexivity|]].
+    cbn [ref_simple map]. cbn [Nat.leb]. rewrite R.
+    exists (py_unpairn m (PPair x y)). split; [cbn [Nat.leb Nat.sub]; rewrite Nat.sub_0_r; reflexivity|].
+    split; [rewrite map_app; reflexivity | apply Forall2_app; assumption].
+  - (* GET k *)
+    destruct s as [|[] r]; try discriminate. destruct (ty_get_n k0 (TPair a b)) as [t'|] eqn:Eg; [|discriminate].
+    injection Htc as <-. inversion Hs as [|v ? rest ? Hv Hr]; subst.
+    destruct (get_n_agree k0 _ _ _ Eg Hv) as (w & E1 & T & R).
+    apply typed_pair_inv in Hv as Hv'. destruct Hv' as (x & y & -> & _ & _).
+    exists [PPair x y], rest. split; [reflexivity | split; [reflexivity|]].
+    cbn [ref_simple map]. rewrite R, E1.
+    eexists; split; [reflexivity | split; [reflexivity | constructor; assumption]].
+  - (* UPDATE k *)
+    destruct s as [|tx [|[] r]]; try discriminate. destruct (ty_update_n k0 tx (TPair a b)) as [t'|] eqn:Eg; [|discriminate].
+    injection Htc as <-. inversion Hs as [|e ? rest0 ? He Hr0]; subst. inversion Hr0 as [|v ? rest ? Hv Hr]; subst.
+    destruct (update_n_agree k0 _ _ _ _ _ Eg He Hv) as (w & E1 & T & R).
+    apply typed_pair_inv in Hv as Hv'. destruct Hv' as (x & y & -> & _ & _).
+    exists [e; PPair x y], rest. split; [reflexivity | split; [reflexivity|]].
+    cbn [ref_simple map]. rewrite R, (py_update_comb_structural _ _ _ _ E1).
+    eexists; split; [reflexivity | split; [reflexivity | constructor; assumption]].
   - (* LEFT *) tc_cases Htc. injection Htc as <-. inv_f2. give_args. simpl. finish.
   - (* RIGHT *) tc_cases Htc. injection Htc as <-. inv_f2. give_args. simpl. finish.
   - (* SOME *) tc_cases Htc. injection Htc as <-. inv_f2. give_args. simpl. finish.
@@ -400,22 +597,6 @@ Proof.
   destruct (shuffle i s) as [s1|]; [|discriminate]. injection Htc as <-.
   destruct (shuffle i vis) as [vis'|] eqn:Ev; [|contradiction].
   rewrite shuffle_refines by (auto; left; congruence). rewrite Ev. simpl. eauto.
-Qed.
-
-Lemma split_at_app {A} (a b : list A) n : length a = n -> skipn n (a ++ b) = b /\ firstn n (a ++ b) = a.
-Proof.
-  intros <-. split.
-  - rewrite skipn_app, skipn_all, Nat.sub_diag. reflexivity.
-  - rewrite firstn_app, firstn_all, Nat.sub_diag. simpl. apply app_nil_r.
-Qed.
-
-Lemma styped_split n vis s : styped vis s -> n <= length s ->
-  exists a b, vis = a ++ b /\ length a = n /\ styped a (firstn n s) /\ styped b (skipn n s).
-Proof.
-  intros H L. exists (firstn n vis), (skipn n vis). pose proof (Forall2_length' _ _ _ H) as E.
-  rewrite firstn_skipn, firstn_length, Nat.min_l by lia. repeat split; auto.
-  - apply Forall2_firstn. assumption.
-  - apply Forall2_skipn. assumption.
 Qed.
 
 Lemma py_map_length run l : forall st pys st', py_map run l st = PMDone pys st' -> length pys = length l.
